@@ -333,6 +333,15 @@ class YAMLSpecification(Specification):
                     )
                 names_seen.add(name)
 
+                # A step cannot depend on itself (in either the plain or
+                # the all-combinations '_*' form).
+                for dependency in step["run"].get("depends", []):
+                    if re.sub(r"_\*|\*", "", dependency) == name:
+                        raise ValueError(
+                            "Step '{}' lists itself in its run.depends."
+                            .format(name)
+                        )
+
         except Exception as e:
             logger.exception(e.args)
             raise
